@@ -20,6 +20,25 @@ def cube (c : List (List (List Float))) : Nat → Nat → Nat → Float :=
   let a := (c.map fun m => (m.map List.toArray).toArray).toArray
   fun n i j => ((a.getD n #[]).getD i #[]).getD j 0.0
 
+/-- optional description of the data base: `nrows` and `ids` (`null`: not panel; else the panel
+column row by row).  Absent: the sample size is the number of per-observation values given. -/
+def optData (j : Json) : Except String (Option (Option (List Int) × Nat)) :=
+  match j.getObjVal? "nrows" with
+  | .error _ => pure none
+  | .ok v => do
+    let n ← asNat v
+    match j.getObjVal? "ids" with
+    | .ok Json.null => pure (some (none, n))
+    | .ok a => do pure (some (some (← intList a), n))
+    | .error _ => throw "bad-op"
+
+def dictItems (j : Json) : Except String (List (String × Nat)) := do
+  (← asArr j).toList.mapM fun e => do
+    let a ← asArr e
+    match a.toList with
+    | [k, v] => pure (← asStr k, ← asNat v)
+    | _ => throw "bad-op"
+
 def handle (j : Json) : Except String Json := do
   let op ← getStr j "op"
   match op with
@@ -33,6 +52,26 @@ def handle (j : Json) : Except String Json := do
     let p ← getNat j "param"
     let cpu ← getNat j "cpu"
     pure (Json.mkObj [("threads", jNat (resolveThreads p cpu))])
+  | "betavector" =>
+    -- BIOGEME.beta_values_dict_to_list: values cross as opaque bit patterns
+    let names ← strList (← j.getObjVal? "names")
+    let d ← dictItems (← j.getObjVal? "dict")
+    let foreign := jStrs (foreignKeys names d)
+    match betaVector names d with
+    | .ok vs => pure (Json.mkObj [("ok", jNats vs), ("foreign", foreign)])
+    | .error e => pure (Json.mkObj [("missing", jStr e), ("foreign", foreign)])
+  | "samplesize" =>
+    match ← optData j with
+    | none => throw "bad-op"
+    | some (panel, n) =>
+      let inds := match panel with
+        | none => []
+        | some ids => distinct ids
+      let rows := match panel with
+        | none => []
+        | some ids => inds.map (individualRows ids)
+      pure (Json.mkObj [("size", jNat (sampleSize panel n)), ("individuals", jInts inds),
+        ("rows", jArr (rows.map jNats))])
   | "loglike" =>
     -- engine-order Float evaluation of calculate_likelihood(x, scaled)
     let l ← floatList (← j.getObjVal? "l")
@@ -40,11 +79,16 @@ def handle (j : Json) : Except String Json := do
     let p ← getNat j "param"
     let cpu ← getNat j "cpu"
     let scaled ← getBool j "scaled"
-    let N := l.length
+    let data ← optData j
+    let N := match data with
+      | none => l.length
+      | some (panel, n) => sampleSize panel n
     if cpu = 0 then throw "bad-op"
-    let v := calculateLikelihood w (fn l) N p cpu scaled
+    let v := match data with
+      | none => calculateLikelihood w (fn l) N p cpu scaled
+      | some (panel, n) => reported panel n scaled (loglike w (fn l) N (resolveThreads p cpu))
     let ref := weightedSum w (fn l) (List.range N)
-    pure (Json.mkObj [("value", fbits v), ("rowsum", fbits ref),
+    pure (Json.mkObj [("value", fbits v), ("rowsum", fbits ref), ("size", jNat N),
       ("threads", jNat (resolveThreads p cpu)),
       ("used", jNat (nBlocks N (resolveThreads p cpu)))])
   | "derivs" =>
@@ -55,10 +99,15 @@ def handle (j : Json) : Except String Json := do
     let K ← getNat j "K"
     let scaled ← getBool j "scaled"
     if T = 0 then throw "bad-op"
-    let N := g.length
+    let data ← optData j
+    let N := match data with
+      | none => g.length
+      | some (panel, n) => sampleSize panel n
     let gi := List.range K
-    let sc := fun (x : Float) => scaledBy scaled x N
-    pure (Json.mkObj [
+    let sc := fun (x : Float) => match data with
+      | none => scaledBy scaled x N
+      | some (panel, n) => reported panel n scaled x
+    pure (Json.mkObj [("size", jNat N),
       ("grad", jFloats (gi.map fun i => sc (gradEntry w (mat g) N T i))),
       ("hess", jMat (gi.map fun i => gi.map fun k => sc (hessEntry w (cube hh) N T i k))),
       ("bhhh", jMat (gi.map fun i => gi.map fun k => sc (bhhhEntry w (mat g) N T i k)))])
